@@ -194,6 +194,9 @@ def _worker(job):
         for r in results:
             r["twin"] = r["name"] in G.twins
             r["key"] = G.keys.get(r["name"], r["name"])
+        from . import solve as _solve
+
+        out["xsolver"] = _solve.cross_check(budget_s=float(opts.get("xsolver_budget_s", 16 if job.get("tier") == "quick" else 90)))
         out.update(
             results=results, facts=[dict(f, key=G.keys[f["name"]]) for f in G.facts], stats=prob.stats,
             assumptions=getattr(prob, "assumptions", []), theta=theta, libvals=libvals, infos=G.infos,
@@ -336,6 +339,7 @@ def run_check(pid, tier, jobs, meta, seed=0, procs=None, job_timeout=None, extra
     for i, j in enumerate(jobs):
         j.setdefault("seed", seed * 1000 + i)
         j.setdefault("opts", {})
+        j.setdefault("tier", tier)
     if os.environ.get("VERIF_ONLY_JOBS"):  # development aid: run a subset of the jobs (evidence then describes that subset only)
         import re
 
@@ -354,6 +358,7 @@ def run_check(pid, tier, jobs, meta, seed=0, procs=None, job_timeout=None, extra
     fact_count = fact_ok = 0
     selftests = []
     seen_err = set()
+    xsum = {}
     for j, o in outs:
         if o.get("error"):
             inconclusive.append("job %s: %s" % (j["name"], o["error"]))
@@ -361,6 +366,15 @@ def run_check(pid, tier, jobs, meta, seed=0, procs=None, job_timeout=None, extra
                 seen_err.add(o["error"])
                 sys.stderr.write(o["trace"] + "\n")
             continue
+        xs = o.get("xsolver") or {}
+        for k in ("queries", "checked", "agreed", "second_unknown", "rejected"):
+            xsum[k] = xsum.get(k, 0) + xs.get(k, 0)
+        xsum["seconds"] = round(xsum.get("seconds", 0.0) + xs.get("seconds", 0.0), 2)
+        for sname in xs.get("solvers", []):
+            if sname not in xsum.setdefault("solvers", []):
+                xsum["solvers"].append(sname)
+        for dmsg in xs.get("disagreements", []):
+            inconclusive.append("job %s: second solver disagrees: %s" % (j["name"], dmsg))
         st = o.get("stats", {})
         solver_s += st.get("solver_s", 0.0) + st.get("oracle_s", 0.0)
         nf_s += st.get("nf_s", 0.0)
@@ -499,6 +513,7 @@ def run_check(pid, tier, jobs, meta, seed=0, procs=None, job_timeout=None, extra
         facts=dict(total=fact_count, ok=fact_ok),
         twins=dict(total=n_twins, sat=n_twins_ok, replayed_as_numeric_difference=twins_replayed),
         shim_selftest=dict(jobs_cross_checked=st_ok, values_compared=st_points),
+        second_solver=dict(xsum, note="every query text answered by the z3 5.1 API is re-run through the listed solver binaries (one incremental process per job); 'checked' counts query x solver pairs; a sat/unsat disagreement makes the check inconclusive"),
         solver_time_s=round(solver_s, 3),
         normal_form_time_s=round(nf_s, 3),
         functions_encoded=meta.get("functions", []),
